@@ -244,6 +244,66 @@ def main():
         except Exception as ex:
             out["oracle_bad"].append({"oracle": "flatten", "x": enc(x), "error": repr(ex),
                                       "site": {"oracle": "flatten"}})
+    # ---- (C) one container OBJECT differentiated, edited in place, differentiated again: the second gradient is that
+    #      of the container as it is now (the same as for a freshly built equal container) ----
+    def fresh(v):
+        if isinstance(v, dict):
+            return {k: fresh(t) for k, t in v.items()}
+        if isinstance(v, list):
+            return [fresh(t) for t in v]
+        if isinstance(v, tuple):
+            return tuple(fresh(t) for t in v)
+        return onp.array(v) if isinstance(v, onp.ndarray) else v
+
+    def first_leaf(c):
+        while isinstance(c, (list, tuple, dict)) or (isbox(c) and isinstance(c._value, (list, tuple, dict))):
+            raw = c._value if isbox(c) else c
+            if len(raw) == 0:
+                return 0.0
+            c = c[sorted(raw)[0]] if isinstance(raw, dict) else c[0]
+        return c
+
+    for i in range(cfg["n_oracle"]):
+        x = gen_val(rng, rng.randint(1, 3))
+        if isinstance(x, tuple):
+            x = list(x)
+        if len(x) == 0:
+            continue
+        f = lambda c: anp.sum(first_leaf(c) * 2.0)  # noqa: E731
+        target = x
+        if rng.random() < 0.4:       # edit a nested mutable container instead, when the access path goes through one
+            t = x[sorted(x)[0]] if isinstance(x, dict) else x[0]
+            if isinstance(t, (list, dict)) and len(t):
+                target = t
+        edit = rng.choice(["replace-leaf-other-shape", "remove-entry", "add-entry", "replace-leaf-by-container"])
+        name = "edit-in-place:" + edit
+        out["oracle_n"] += 1
+        out["oracle_keys"].append(name + ":" + json.dumps(enc(x))[:80])
+        dist("oracle:" + name)
+        try:
+            g1 = grad(f)(x)
+            ok = deq(vspace(g1).zeros(), vspace(x).zeros())
+            k0 = sorted(target)[0] if isinstance(target, dict) else 0
+            klast = sorted(target)[-1] if isinstance(target, dict) else len(target) - 1
+            if edit == "replace-leaf-other-shape":
+                target[k0] = onp.array([float(rng.randint(1, 3)) for _ in range(rng.choice([2, 5]))]) if rng.random() < 0.6 else 4.0
+            elif edit == "remove-entry":
+                if klast != k0:
+                    del target[klast]
+            elif edit == "add-entry":
+                if isinstance(target, dict):
+                    target[99] = onp.ones(2)
+                else:
+                    target.append(onp.ones(2))
+            else:
+                target[k0] = [onp.array([1.0, 2.0]), 3.0]
+            g2 = grad(f)(x)
+            ref = grad(f)(fresh(x))
+            ok = ok and veq(g2, ref) and deq(vspace(g2).zeros(), vspace(x).zeros())
+            if not ok:
+                out["oracle_bad"].append({"oracle": name, "x": enc(x), "vjp": enc(g2), "expected": enc(ref), "site": {"oracle": name}})
+        except Exception as ex:
+            out["oracle_bad"].append({"oracle": name, "x": enc(x), "error": repr(ex), "site": {"oracle": name}})
     out["oracle_keys"] = sorted(set(out["oracle_keys"]))
     print(json.dumps(out))
 
